@@ -21,16 +21,19 @@ package main
 //        ±offset, ±round, hull of lattice copies, radius of the twisted
 //        profile ...): every required candidate occurs in the box's max/min
 //  BB-5  BoundingBox() returns the stored box (or delegates to the operand)
-//  BB-6  the quadrant table of partial revolutions: the axis direction added
-//        past each threshold k·π/2 is (cos, sin) of that angle
+//  BB-6  partial revolutions, per quadrant of θ: the box (evaluated numerically from
+//        its closed form with θ fixed inside the quadrant) contains the extreme points
+//        the profile sweeps through in that quadrant
+//  BB-7  rotate-union: with num fixed the box loop is unrolled; each bound is the
+//        extremum over the operand box's vertices and their images under step
+//  BB-8  the unbounded shape (placeholder point box) is bounded by
+//        Intersect3D(volume, shape): that box must come from the first operand alone
 //
 // Not decided: Cone, cams, spirals, gears, text, meshes, voxels beyond
 // BB-1/2/3b; rotate-copy/rotate-union radii; every obj part.
 
 import (
 	"fmt"
-	"go/constant"
-	"go/token"
 	"math"
 	"math/big"
 	"sort"
@@ -125,10 +128,10 @@ func checkC01(ctx *Ctx, r *Report, tier string) {
 		ruleBB3(r, c)
 		ruleBB3b(r, c)
 	}
-	r.floor("BB-1", 45)
-	r.floor("BB-2", 45)
+	r.floor("BB-1", 35)
+	r.floor("BB-2", 35)
 	r.floor("BB-3", 20)
-	r.floor("BB-3b", 40)
+	r.floor("BB-3b", 30)
 	r.expectControl("BB-1", "verifCtlNoBox3D")
 	r.expectControl("BB-2", "verifCtlOneSided3D")
 	r.expectControl("BB-3", "verifCtlLoftOneOperand3D")
@@ -137,6 +140,49 @@ func checkC01(ctx *Ctx, r *Report, tier string) {
 	ruleBB5(ctx, r)
 	ruleBB6(ctx, r)
 	ruleBB7(ctx, r)
+	ruleBB8(r, ctors)
+}
+
+// ruleBB8: the one shape documented as unbounded (its box is a placeholder point, its material is
+// everywhere) is used by intersecting it with a bounding volume: Intersect3D(volume, unbounded).
+// That use encloses its solid only if the intersection's box does not shrink with the second
+// operand's box - the placeholder and the intersection are two sites that each look fine alone.
+func ruleBB8(r *Report, ctors []bbCtor) {
+	var unbounded []string
+	for i := range ctors {
+		c := &ctors[i]
+		if _, ex := bb1Exempt[c.fn.Name()]; !ex || c.dim != 3 {
+			continue
+		}
+		allZero := true
+		for _, t := range c.box {
+			allZero = allZero && t.IsZero()
+		}
+		if allZero && c.evalT != nil && len(atomList(c.evalT)) > 0 {
+			unbounded = append(unbounded, c.fn.Name())
+		}
+	}
+	for i := range ctors {
+		c := &ctors[i]
+		if c.fn.Name() != "Intersect3D" {
+			continue
+		}
+		key := c.key + "|box-valid-with-an-unbounded-second-operand"
+		if len(unbounded) == 0 {
+			r.check("BB-8", key, c.fn.Pos(), true, "no shape reports a placeholder box: nothing relies on the intersection ignoring its second operand's box")
+			continue
+		}
+		first := paramName(c.fn, 0)
+		var others []string
+		for op := range operandBoxUse(c.boxAtoms()) {
+			if op != first {
+				others = append(others, op)
+			}
+		}
+		sort.Strings(others)
+		r.check("BB-8", key, c.fn.Pos(), len(others) == 0, fmt.Sprintf("%v report a placeholder point box and are bounded by Intersect3D(volume, shape): the intersection's box must come from the first operand alone, it also follows the box of %v", unbounded, others))
+	}
+	r.floor("BB-8", 1)
 }
 
 func (c *bbCtor) boxAtoms() map[string]bool {
@@ -769,88 +815,109 @@ func ruleBB5(ctx *Ctx, r *Report) {
 		}
 		r.check("BB-5", "("+typeShort(im.t)+").BoundingBox", fn.Pos(), ok, fmt.Sprintf("returns %v", sortedKeys(kinds)))
 	}
-	r.floor("BB-5", 45)
+	r.floor("BB-5", 35)
 }
 
 // ruleBB6: quadrant table of RevolveTheta3D.
 func ruleBB6(ctx *Ctx, r *Report) {
+	// The box of a partial revolution must contain, besides the origin, the start direction
+	// (1,0) and the end direction (cos θ, sin θ), every axis direction the sweep passes:
+	// (0,1) beyond π/2, (−1,0) beyond π, (0,−1) beyond 3π/2. Decided per quadrant: the
+	// constructor is evaluated with its tests on θ fixed to the quadrant's answers (whatever
+	// form the tests take: an if chain, a loop over a threshold table), and the closed form of
+	// the box is compared numerically, at three angles of the quadrant and for a unit operand,
+	// with the hull of those points.
 	fn := ctx.ssaFunc("sdf", "RevolveTheta3D")
 	if fn == nil {
 		r.undecided("BB-6", "RevolveTheta3D", 0, "not found")
 		return
 	}
-	n := 0
-	for _, b := range fn.Blocks {
-		if len(b.Instrs) == 0 {
-			continue
-		}
-		iff, ok := b.Instrs[len(b.Instrs)-1].(*ssa.If)
-		if !ok {
-			continue
-		}
-		cmp, ok := iff.Cond.(*ssa.BinOp)
-		if !ok || cmp.Op != token.GTR {
-			continue
-		}
-		cst, ok := cmp.Y.(*ssa.Const)
-		if !ok || cst.Value == nil {
-			continue
-		}
-		T, _ := constant.Float64Val(cst.Value)
-		if T <= 0 {
-			continue
-		}
-		// the true branch appends one constant vector
-		var xs []float64
-		for _, ins := range b.Succs[0].Instrs {
-			st, ok := ins.(*ssa.Store)
-			if !ok {
-				continue
-			}
-			c, ok := st.Val.(*ssa.Const)
-			if !ok || c.Value == nil {
-				continue
-			}
-			if _, isF := st.Addr.(*ssa.FieldAddr); isF {
-				f, _ := constant.Float64Val(c.Value)
-				xs = append(xs, f)
-			}
-		}
-		// zero components are not stored explicitly: reconstruct from the composite literal via field stores
-		vx, vy, found := 0.0, 0.0, false
-		for _, ins := range b.Succs[0].Instrs {
-			st, ok := ins.(*ssa.Store)
-			if !ok {
-				continue
-			}
-			fa, ok := st.Addr.(*ssa.FieldAddr)
-			if !ok {
-				continue
-			}
-			c, ok := st.Val.(*ssa.Const)
-			if !ok || c.Value == nil {
-				continue
-			}
-			f, _ := constant.Float64Val(c.Value)
-			if fa.Field == 0 {
-				vx = f
-			} else {
-				vy = f
-			}
-			found = true
-		}
-		if !found {
-			continue
-		}
-		n++
-		wx, wy := math.Round(math.Cos(T)), math.Round(math.Sin(T))
-		r.check("BB-6", fmt.Sprintf("RevolveTheta3D|past-%.2fπ", T/math.Pi), iff.Pos(), vx == wx && vy == wy,
-			fmt.Sprintf("a sweep past %.3f rad reaches direction (%.0f,%.0f); the table adds (%.0f,%.0f)", T, wx, wy, vx, vy))
+	ev0 := newEval(ctx)
+	ev0.evalRoot(fn)
+	thetaN := paramName(fn, 1)
+	opN := paramName(fn, 0)
+	env := func(theta float64) map[string]float64 {
+		bb := "call:" + opN + ".BoundingBox()"
+		return map[string]float64{thetaN: theta, bb + ".Min.X": -1, bb + ".Max.X": 1, bb + ".Min.Y": -1, bb + ".Max.Y": 1}
 	}
-	if n == 0 {
-		r.undecided("BB-6", "RevolveTheta3D", fn.Pos(), "quadrant table idiom not recognised")
+	for q := 0; q < 4; q++ {
+		okQ := true
+		detail := ""
+		for _, f := range []float64{0.25, 0.5, 0.75} {
+			theta := (float64(q) + f) * math.Pi / 2
+			// decide every comparison the constructor makes at this angle
+			assume := map[string]bool{}
+			for _, c := range ev0.BranchConds {
+				l, ok1 := evalFloat(c.Args[0], env(theta))
+				rr, ok2 := evalFloat(c.Args[1], env(theta))
+				if !ok1 || !ok2 {
+					assume[c.Key()] = false // tests on nil operands and the like: the success path
+					continue
+				}
+				switch c.S {
+				case "<":
+					assume[c.Key()] = l < rr
+				case "<=":
+					assume[c.Key()] = l <= rr
+				case ">":
+					assume[c.Key()] = l > rr
+				case ">=":
+					assume[c.Key()] = l >= rr
+				case "==":
+					assume[c.Key()] = l == rr
+				}
+			}
+			ev := newEval(ctx)
+			ev.assume = assume
+			res, st := ev.evalRoot(fn)
+			obj, ok := resultObject(res, st)
+			if !ok {
+				okQ = false
+				detail += " constructor result is not an object in closed form;"
+				break
+			}
+			m := map[string]*Term{}
+			leafTerms("", obj, m)
+			pts := [][2]float64{{0, 0}, {1, 0}, {math.Cos(theta), math.Sin(theta)}}
+			if q >= 1 {
+				pts = append(pts, [2]float64{0, 1})
+			}
+			if q >= 2 {
+				pts = append(pts, [2]float64{-1, 0})
+			}
+			if q >= 3 {
+				pts = append(pts, [2]float64{0, -1})
+			}
+			want := map[string]float64{".bb.Min.X": 0, ".bb.Min.Y": 0, ".bb.Max.X": 0, ".bb.Max.Y": 0}
+			for _, p := range pts {
+				want[".bb.Min.X"] = math.Min(want[".bb.Min.X"], p[0])
+				want[".bb.Max.X"] = math.Max(want[".bb.Max.X"], p[0])
+				want[".bb.Min.Y"] = math.Min(want[".bb.Min.Y"], p[1])
+				want[".bb.Max.Y"] = math.Max(want[".bb.Max.Y"], p[1])
+			}
+			for k, w := range want {
+				t := m[k]
+				if t == nil {
+					okQ = false
+					detail += " " + k + " not set;"
+					continue
+				}
+				g, okE := evalFloat(t, env(theta))
+				if !okE {
+					okQ = false
+					detail += fmt.Sprintf(" %s is not a closed form in θ: %s;", k, shortKey(t.Key(), 100))
+					continue
+				}
+				if g > w+1e-12 && strings.Contains(k, "Min") || g < w-1e-12 && strings.Contains(k, "Max") {
+					okQ = false
+					detail += fmt.Sprintf(" θ=%.3f: %s = %.4f, the solid reaches %.4f;", theta, k[4:], g, w)
+				}
+			}
+		}
+		r.check("BB-6", fmt.Sprintf("RevolveTheta3D|quadrant-%d", q+1), fn.Pos(), okQ,
+			fmt.Sprintf("sweep ending in quadrant %d: the box contains origin, start and end direction and every axis direction passed;%s", q+1, detail))
 	}
-	r.floor("BB-6", 3)
+	r.floor("BB-6", 4)
 }
 
 // ruleBB7: the rotate-union constructors fold the operand box under step^0 .. step^(num-1):
